@@ -909,6 +909,31 @@ def rule_slice_ops(ctx):
                                 'empty', 'empty_like', 'result_type', 'ndim'):
                         continue
                     used.setdefault(last, c)
+        # outer product written as a broadcast: a[..., newaxis] * b   (rows from a, columns from b)
+        bouter = []
+        for c in walk_no_nested(fi.node):
+            if isinstance(c, ast.BinOp) and isinstance(c.op, ast.Mult):
+                def trailing_newaxis(e):
+                    if isinstance(e, ast.Subscript):
+                        sl = e.slice
+                        last = sl.elts[-1] if isinstance(sl, ast.Tuple) and sl.elts else sl
+                        return norm(last) in ('numpy.newaxis', 'None')
+                    return False
+                l_, r_ = trailing_newaxis(c.left), trailing_newaxis(c.right)
+                if l_ != r_:
+                    bouter.append((c.left, c.right) if l_ else (c.right, c.left))
+        if bouter and 'outer' in allowed:
+            used.setdefault('outer', bouter[0][0])
+            vp_ = fi.value_params()
+            for rows, cols in bouter:
+                nr = {x.id for x in ast.walk(rows) if isinstance(x, ast.Name)}
+                nc = {x.id for x in ast.walk(cols) if isinstance(x, ast.Name)}
+                if len(vp_) >= 2 and vp_[1] in nr and vp_[0] in nc and vp_[0] not in nr:
+                    r.bad(Finding('C07.op', _f(fi), k + ':broadcast-order', '%s forms the outer product as `%s[..., newaxis] * %s`: the rows come from the second '
+                                                                             'operand - this is outer(%s, %s), the transpose' % (fi.qualname, norm(rows)[:30], norm(cols)[:30], vp_[1], vp_[0]),
+                                  fi.file, rows.lineno))
+                elif len(vp_) >= 2 and vp_[0] in nr and vp_[1] in nc:
+                    r.ok(construct=k + ':broadcast-order', sample='%s: outer product as broadcast with rows from `%s`' % (fi.qualname, vp_[0]))
         bad = {n: c for n, c in used.items() if n not in allowed}
         if bad:
             for n, c in bad.items():
@@ -918,6 +943,21 @@ def rule_slice_ops(ctx):
             r.unknown(fi.site(), 'no NumPy slice operation found in kernel')
         else:
             r.ok(construct=k, sample='%s uses %s on slices' % (k, sorted(used)))
+        # operand order of the (non-commutative) product in the pure product kernels: first factor from the first operand
+        if k in ('_dot', '_dot_non_UTPM_x', '_dot_non_UTPM_y', '_outer', '_outer_non_utpm_x', '_outer_non_utpm_y'):
+            vp = fi.value_params()
+            if len(vp) >= 2:
+                p1, p2 = vp[0], vp[1]
+                for c in walk_no_nested(fi.node):
+                    if isinstance(c, ast.Call) and (dotted_name(c.func) or '') in ('numpy.dot', 'numpy.outer', 'numpy.matmul') and len(c.args) >= 2:
+                        n1 = {x.id for x in ast.walk(c.args[0]) if isinstance(x, ast.Name)}
+                        n2 = {x.id for x in ast.walk(c.args[1]) if isinstance(x, ast.Name)}
+                        if p1 in n2 and p2 in n1 and p1 not in n1 and p2 not in n2:
+                            r.bad(Finding('C07.op', _f(fi), k + ':order', '%s multiplies `%s`: the first factor comes from the second operand `%s` and the second '
+                                                                           'factor from the first operand `%s` (operands swapped: transposed / wrong product)'
+                                          % (fi.qualname, norm(c)[:70], p2, p1), fi.file, c.lineno))
+                        elif p1 in n1 and p2 in n2:
+                            r.ok(construct=k + ':order@%d' % c.lineno, sample='%s: `%s` keeps the operand order' % (fi.qualname, norm(c)[:60]))
     r.floor = 10
     return r
 
